@@ -167,32 +167,32 @@ inductive VisitedC (s : Simp) (o : Oracle) (cfg : Cfg) (codes : List (Nat × Lis
 /-! ### soundness -/
 
 section
-variable (p : Evm.Params) (S : Nat → Prop) (w0 : Evm.World) (cs0 : CState) (H : Interp → Prop)
+variable (p : Evm.Params) (S : Nat → Prop) (w0 ws : Evm.World) (cs0 : CState) (H : Interp → Prop)
 
 /-- a worklist state is *good*: for every valuation satisfying its path and every initial frame related to the
     initial state, it is related to a concrete configuration every completion of which is a result of the whole
     transaction -/
 def GoodC (cs : CState) : Prop :=
-  ∀ I : Interp, I.Std → H I → ∀ f0, RelC I p S w0 cs0 w0 f0 [] → Sat I cs.st.path →
-    ∃ w f kcs, RelC I p S w0 cs w f kcs ∧ ∀ r, RunStack p w f kcs r → Halts p w0 f0 r
+  ∀ I : Interp, I.Std → H I → ∀ f0, RelC I p S w0 cs0 ws f0 [] → Sat I cs.st.path →
+    ∃ w f kcs, RelC I p S w0 cs w f kcs ∧ ∀ r, RunStack p w f kcs r → Halts p ws f0 r
 
 /-- an end is *good*: an untagged EVM outcome of kind `h` is — with its data evaluated — the outcome of the whole
     transaction under every valuation satisfying its path, in the world its maps describe -/
 def GoodEndC (ce : CEnd) : Prop :=
-  ce.e.tag = .normal → ∀ h, ce.e.out = .halt h → ∀ I : Interp, I.Std → H I → ∀ f0, RelC I p S w0 cs0 w0 f0 [] →
+  ce.e.tag = .normal → ∀ h, ce.e.out = .halt h → ∀ I : Interp, I.Std → H I → ∀ f0, RelC I p S w0 cs0 ws f0 [] →
     Sat I ce.e.st.path →
-      ∃ w', Halts p w0 f0 (w', haltWith h (ce.e.data.map (·.eval I))) ∧
+      ∃ w', Halts p ws f0 (w', haltWith h (ce.e.data.map (·.eval I))) ∧
         WRelM I S (wd w0 ce.created ce.nonce) w' (stoOf ce.stores) (evalLogs I ce.logs) (balSem I w0 ce.bal) ∧
-        HRel I p S w' ce.hsto
+        HRel I p S w' ce.hsto ∧ EndInv I S ce
 
 end
 
 section
-variable {p : Evm.Params} {S : Nat → Prop} {w0 : Evm.World} {cs0 : CState} {H : Interp → Prop}
+variable {p : Evm.Params} {S : Nat → Prop} {w0 ws : Evm.World} {cs0 : CState} {H : Interp → Prop}
 variable {s : Simp} {o : Oracle} {cfg : Cfg} {codes : List (Nat × List Nat)}
 
-theorem goodC_init : GoodC p S w0 cs0 H cs0 :=
-  fun _ _ _ f0 h0 _ => ⟨w0, f0, [], h0, fun _ hr => hr⟩
+theorem goodC_init : GoodC p S w0 ws cs0 H cs0 :=
+  fun _ _ _ f0 h0 _ => ⟨ws, f0, [], h0, fun _ hr => hr⟩
 
 theorem stepC_good (hs : SimpSound s) (hmem : cfg.maxMem + 32 ≤ p.memLimit) (hdep : 1024 ≤ p.maxDepth)
     (hcodes : ∀ a, w0.codeOf a = codeOf codes a) (hS : ∀ a prog, codeOf codes a = some prog → S a)
@@ -202,9 +202,9 @@ theorem stepC_good (hs : SimpSound s) (hmem : cfg.maxMem + 32 ≤ p.memLimit) (h
     (hch : CreateHyp cfg p S w0) (hoh : cfg.hsto = true → OracleSound o ∧ cfg.sha3 = true)
     (hhs : ∀ I, I.Std → H I → ∀ cs, VisitedC s o cfg codes cs0 cs → Sat I cs.st.path → HstoOK I p s cfg cs)
     {cs : CState} (hv : VisitedC s o cfg codes cs0 cs)
-    (hg : GoodC p S w0 cs0 H cs) :
-    (∀ cs' ∈ (stepC s o cfg codes cs).next, GoodC p S w0 cs0 H cs') ∧
-    (∀ ce ∈ (stepC s o cfg codes cs).ends, GoodEndC p S w0 cs0 H ce) := by
+    (hg : GoodC p S w0 ws cs0 H cs) :
+    (∀ cs' ∈ (stepC s o cfg codes cs).next, GoodC p S w0 ws cs0 H cs') ∧
+    (∀ ce ∈ (stepC s o cfg codes cs).ends, GoodEndC p S w0 ws cs0 H ce) := by
   refine ⟨?_, ?_⟩
   · intro cs' hm I hI hHI f0 h0 hsat'
     obtain ⟨ext, hp⟩ := stepC_next_path hm
@@ -230,9 +230,9 @@ theorem exploreC_sound (hs : SimpSound s) (hmem : cfg.maxMem + 32 ≤ p.memLimit
     (hch : CreateHyp cfg p S w0) (hoh : cfg.hsto = true → OracleSound o ∧ cfg.sha3 = true)
     (hhs : ∀ I, I.Std → H I → ∀ cs, VisitedC s o cfg codes cs0 cs → Sat I cs.st.path → HstoOK I p s cfg cs)
     (fuel : Nat) : ∀ (steps : Nat) (wl : List CState) (acc : ResultC),
-    (∀ cs ∈ wl, GoodC p S w0 cs0 H cs ∧ VisitedC s o cfg codes cs0 cs) →
-    (∀ ce ∈ acc.ends, GoodEndC p S w0 cs0 H ce) →
-    ∀ ce ∈ (exploreC s o cfg codes fuel steps wl acc).ends, GoodEndC p S w0 cs0 H ce := by
+    (∀ cs ∈ wl, GoodC p S w0 ws cs0 H cs ∧ VisitedC s o cfg codes cs0 cs) →
+    (∀ ce ∈ acc.ends, GoodEndC p S w0 ws cs0 H ce) →
+    ∀ ce ∈ (exploreC s o cfg codes fuel steps wl acc).ends, GoodEndC p S w0 ws cs0 H ce := by
   induction fuel with
   | zero =>
     intro steps wl acc hwl hacc
